@@ -1,25 +1,33 @@
 """C20 -- noqa directives suppress exactly the specified violations.
 
-Functions under contract (symbolic + native):
+Functions under contract (symbolic + native), all in their real source:
    sqlfluff.core.rules.noqa: NoQaDirective._filter_violations_single_line,
-                             IgnoreMask._should_ignore_violation_line_range, ._ignore_masked_violations_line_range,
-                             ._ignore_masked_violations_single_line, .ignore_masked_violations,
+                             IgnoreMask._ignore_masked_violations_single_line, ._should_ignore_violation_line_range,
+                             ._ignore_masked_violations_line_range, .ignore_masked_violations,
                              .generate_warnings_for_unused
-   sqlfluff.core.linter.linted_file: LintedFile.get_violations  (restricted to types=None, fixable=None)
+   sqlfluff.core.linter.linted_file: LintedFile.get_violations   (for types=None, fixable=None, no warnings appended)
 Assumed (external, functional): SQLBaseError.rule_code, SQLBaseError.fixable.
-Native-only companions (kind="native", run from BOUNDED): the `used` accounting clauses that need the PRE-state
-of a heap field of list elements (`old.<list>[i].used`), which the symbolic engine cannot express.
-Bounded stand-ins (BOUNDED): the textual front end (_parse_noqa / _extract_ignore_from_comment / from_tree /
-from_source) against an executable grammar spec; the declarative hidden/used spec over every small mask incl.
-call histories; "noqa off hides nothing" end to end.
+
+Top-level postcondition (ignore_masked_violations):  result == [v for v in violations if not hidden(v, directives)],
+order kept, with `hidden` = the property's first sentence (spec functions plain_hit / range_off / names below).
+
+Native-only companions (kind="native", alias keys, run from BOUNDED[1]): the `used` accounting clauses that need the
+PRE-state of a heap field of list elements (`old.<list>[i].used`), which the symbolic engine cannot express.
+Bounded stand-ins (BOUNDED): [0] the textual front end (_parse_noqa / _extract_ignore_from_comment / from_tree /
+from_source) against an executable grammar written from the documented syntax; [1] hidden/used over every small mask
+with call histories; [2] "noqa off hides nothing" and disable_noqa_except end to end.
+
+FINDING (kept as a failing clause, see BOUNDED[2] and the native search of the two range contracts): a range directive
+whose rule list is the EMPTY tuple -- what `noqa: disable=X` / `enable=X` parse to under `disable_noqa_except` when X is
+outside the excepted rules -- is treated as naming no rule, i.e. as covering EVERY rule (noqa.py:311 `not ignore.rules`).
 
 Abstract view:  directive = (line_no, rules: None | tuple of codes, action: None | "enable" | "disable",
 used (mutable), line_pos, raw_str);  violation = (line_no, rule_code()).
 """
 import os as _os
 
-from pyvc.dsl import contract, spec, implies, iff, ref_class, rec_class
-from pyvc.ty import INT, BOOL, Text, StrN, TList, TTuple, TOpt, TEnum, TOpaque
+from pyvc.dsl import contract, spec, implies, ref_class, rec_class
+from pyvc.ty import INT, BOOL, Text, StrN, TList, TTuple, TOpt, TEnum
 from pyvc import replay as _replay
 
 from .types import SQLBaseError as _SharedErr, FixPatch, TemplatedFile  # noqa: F401  shared declarations
@@ -160,8 +168,8 @@ def distinct(xs):
 @spec
 def keeps_order(res, vs):
     """elements of res occur in the relative order they have in vs"""
-    return all(implies(res[i] is vs[k] and res[j] is vs[l], i < j)
-               for i in range(len(res)) for j in range(len(res)) for k in range(len(vs)) for l in range(k + 1, len(vs)))
+    return all(implies(res[i] is vs[k] and res[j] is vs[l], k < l)
+               for i in range(len(res)) for j in range(i + 1, len(res)) for k in range(len(vs)) for l in range(len(vs)))
 
 
 # result == [v for v in vs if not P(v)] for pairwise distinct vs, spelled with quantifiers, is the conjunction of
@@ -368,6 +376,9 @@ def before(a, b):
 class generate_warnings_for_unused:
     types = {"self": IgnoreMask}
     ret = TList(SQLBaseError)
+    # the body allocates exception objects inside a filtering comprehension: outside the symbolic subset; the
+    # executable contract is run natively on the real function (bounded, labelled so in the evidence)
+    opts = {"native_only": True}
 
     def requires(self):
         # directives are kept in source order; distinct comments start at distinct source positions
